@@ -1,0 +1,24 @@
+//go:build verif
+
+package redis
+
+import "sync/atomic"
+
+var verifPointHook atomic.Pointer[func(string)]
+
+// VerifSetPointHook installs (or, with nil, removes) the callback that is
+// invoked when a goroutine of the server reaches a named schedule point.
+func VerifSetPointHook(hook func(name string)) {
+	if hook == nil {
+		verifPointHook.Store(nil)
+		return
+	}
+	verifPointHook.Store(&hook)
+}
+
+// verifPoint marks a schedule point for the verification harness.
+func verifPoint(name string) {
+	if hook := verifPointHook.Load(); hook != nil {
+		(*hook)(name)
+	}
+}
